@@ -215,7 +215,9 @@ class Ex:
         for i in range(1, max(len(s1), len(s2)) + 1):
             a = s1[-i] if i <= len(s1) else None
             b = s2[-i] if i <= len(s2) else None
-            if a is None or a == '1':
+            if a == '?' or b == '?':
+                out.append(a if b in ('?', '1', None) else b)     # a length the translator does not track: compatible with everything
+            elif a is None or a == '1':
                 out.append(b if b is not None else a)
             elif b is None or b == '1' or a == b:
                 out.append(a)
@@ -281,8 +283,21 @@ class Ex:
     def mk_list(self, kind, srcs, body, shape, q, qlen=None):
         return V(kind, render_list(srcs, body), shape, q, ent=(srcs, body), qlen=qlen)
 
+    def mk_outer(self, rs, cs, body, shape):
+        text = f"({rs}.map (fun a => {cs}.map (fun b => {body.replace(V0, 'a').replace(V1, 'b')})))"
+        return V('mat', text, shape, ent=('outer', rs, cs, body))
+
     def elementwise(self, node, f, *args):
         """apply the scalar-level function `f(scalars…) -> (kind, text)` element-wise to `args` (scalars or lists), fused"""
+        outer = [a for a in args if a.kind in ('mat',) and a.ent is not None and a.ent[0] == 'outer']
+        if outer:
+            o = outer[0]
+            if any(x.ent[1:3] != o.ent[1:3] for x in outer) or any(a.kind in ELEM and not any(a is x for x in outer) for a in args):
+                self.fail(node, 'element-wise expression over an outer product and another array')
+            k, t = f(*[V('real', a.ent[3]) if any(a is x for x in outer) else a for a in args])
+            if k != 'real':
+                self.fail(node, f"matrix of {k}")
+            return self.mk_outer(o.ent[1], o.ent[2], t, o.shape)
         lists = [a for a in args if a.kind in ELEM]
         q = any(a.q for a in args)
         shape = ()
@@ -417,6 +432,11 @@ class Ex:
                 and 'real' in (l.kind, r.kind):
             self.need('[Div α]', '[BEq α]', '[OfNat α 0]')
             return self.bind(f"NpR.pyDivE {self.as_real(l, e)} {self.as_real(r, e)}", 'real', node=e)
+        kk = (l.kind, r.kind)
+        if kk == ('cmat', 'mat') and op is ast.Mult and not l.q and not r.q:
+            # complex matrix times real matrix, entry by entry
+            self.need('[Mul β]', '[CxLike α β]')
+            return V('cmat', f"(List.zipWith (List.zipWith (fun d g => d * CxLike.ofReal g)) {l.text} {r.text})", self.bshape(l.shape, r.shape, e))
         aux = []
 
         def f(a, b):
@@ -439,6 +459,12 @@ class Ex:
             if base.q and base.kind in ('real', 'nat', 'int'):
                 return V(base.kind, base.text, base.shape + ('1',), True, qlen=base.qlen)
             self.fail(e, 'column vector of an array that is not along the row axis')
+        if isinstance(s, ast.Tuple) and len(s.elts) == 2 and is_full(s.elts[1]) and isinstance(s.elts[0], ast.Slice) and \
+                base.kind in ('mat', 'cmat') and not base.q and s.elts[0].step is None and s.elts[0].lower is not None and s.elts[0].upper is not None:
+            lo, hi = self.tr(s.elts[0].lower), self.tr(s.elts[0].upper)
+            if lo.kind == 'nat' and hi.kind == 'nat' and not lo.q and not hi.q:
+                return V(base.kind, f"(Np.slice {base.text} {lo.text} {hi.text})", ('?',) + base.shape[1:])
+            self.fail(e, 'row slice bounds')
         if base.q and base.kind in ('real', 'nat', 'int', 'cond') and self.row is not None and self.row['kind'] == 'range' \
                 and isinstance(s, ast.Slice) and s.step is None:
             # slice of an array along the range-indexed row axis: a[k:] substitutes i ↦ i + k, a[:-k] only shortens
@@ -502,6 +528,10 @@ class Ex:
         hook = self.sig.get('calls', {}).get(name)
         if hook is not None:
             return hook(self, e)
+        if self.sig.get('complex'):
+            r = self.tr_call_cx(e, name, a, kw)
+            if r is not None:
+                return r
         if name == 'len' and len(a) == 1 and not kw:
             v = self.tr(a[0])
             if v.kind in ELEM and not v.q:
@@ -606,6 +636,117 @@ class Ex:
             self.fail(e, 'hasattr outside an if test')
         self.fail(e, 'call')
 
+    def tr_call_cx(self, e, name, a, kw):
+        """calls of the Stockwell code (complex arrays, FFT as parameter `tw`, `exp`/`pi` parameters); None when not handled here"""
+        if name == 'np.arange' and not kw and not (self.row is not None and self.row['kind'] == 'range'):
+            vals = [self.tr(x) for x in a]
+            if len(a) == 3 and not (vals[2].kind == 'nat' and vals[2].lit and vals[2].text == '1'):
+                self.fail(e, 'np.arange step')
+            if len(a) in (2, 3) and vals[0].kind == 'nat' and vals[0].lit and vals[1].kind == 'nat' and not vals[1].q:
+                if vals[0].text == '0':
+                    return V('narr', f"(List.range {vals[1].text})", (vals[1].text,))
+                if vals[0].text == '1' and isinstance(a[1], ast.BinOp) and isinstance(a[1].op, ast.Add) and \
+                        isinstance(a[1].right, ast.Constant) and a[1].right.value == 1:
+                    P = self.tr(a[1].left)
+                    return self.mk_list('narr', (f"(List.range {P.text})",), f"({V0} + 1)", (P.text,), False)
+            return None
+        if name == 'np.concatenate' and len(a) == 1 and not kw and isinstance(a[0], (ast.Tuple, ast.List)) and a[0].elts:
+            parts = [self.tr(x) for x in a[0].elts]
+            if all(x.kind == parts[0].kind and x.kind in ('rarr', 'carr') and not x.q for x in parts):
+                return V(parts[0].kind, "(" + " ++ ".join(x.text for x in parts) + ")", ('?',))
+            self.fail(e, 'np.concatenate')
+        if (name == 'np.flipud' and len(a) == 1 and not kw) or (name == 'np.flip' and len(a) == 1 and set(kw) <= {'axis'} and
+                                                                  all(isinstance(v, ast.Constant) and v.value == 0 for v in kw.values())):
+            x = self.tr(a[0])
+            if x.kind in ELEM and not x.q:
+                return V(x.kind, f"(NpE.flip {x.text})", x.shape)
+            self.fail(e, name)
+        if name == 'np.outer' and len(a) == 2 and not kw:
+            f, g = self.tr(a[0]), self.tr(a[1])
+            if f.kind == 'rarr' and g.kind == 'rarr' and not f.q and not g.q:
+                (fs, fb), (gs, gb) = self.lst(f), self.lst(g)
+                if len(fs) == 1 and len(gs) == 1:
+                    self.need('[Mul α]')
+                    return self.mk_outer(fs[0], gs[0], f"({fb} * {gb.replace(V0, V1)})", f.shape + g.shape)
+            self.fail(e, 'np.outer')
+        if name == 'np.exp' and len(a) == 1 and not kw:
+            return self.elementwise(e, lambda x: ('real', f"(exp {x.text})") if x.kind == 'real' else self.fail(e, 'np.exp'), self.tr(a[0]))
+        if isinstance(e.func, ast.Attribute) and e.func.attr == 'transpose' and not a and not kw:
+            m = self.tr(e.func.value)
+            if m.kind == 'mat' and m.ent is not None and m.ent[0] == 'outer':
+                body = m.ent[3].replace(V0, '⟪t⟫').replace(V1, V0).replace('⟪t⟫', V1)
+                return self.mk_outer(m.ent[2], m.ent[1], body, tuple(reversed(m.shape)))
+            self.fail(e, 'transpose')
+        if name in ('np.fft.fft', 'fft') and len(a) == 2 and set(kw) <= {'overwrite_x'}:
+            x, n = self.tr(a[0]), self.tr(a[1])
+            if x.kind == 'carr' and n.kind == 'nat' and not x.q and not n.q:
+                self.need('[Add β]', '[Mul β]', '[OfNat β 0]')
+                return self.bind(f"NpE.fft tw {x.text} {n.text}", 'carr', (n.text,), node=e)
+            self.fail(e, 'fft arguments')
+        if name in ('np.fft.ifft', 'ifft') and len(a) == 1:
+            x = self.tr(a[0])
+            self.need('[Add β]', '[Mul β]', '[Div β]', '[OfNat β 0]', '[NatCast α]', '[CxLike α β]')
+            if x.kind == 'cmat' and set(kw) == {'axis'} and isinstance(kw['axis'], ast.Constant) and kw['axis'].value == 1 and not x.q:
+                return self.bind(f"NpR.ifftRowsE tw {x.text}", 'cmat', x.shape, node=e)
+            if x.kind == 'carr' and not kw and not x.q:
+                return self.bind(f"NpE.ifft tw {x.text} {x.text}.length", 'carr', x.shape, node=e)
+            self.fail(e, 'ifft arguments')
+        if name == 'toeplitz' and len(a) == 2 and not kw:
+            c, r = self.tr(a[0]), self.tr(a[1])
+            if c.kind == 'carr' and r.kind == 'carr' and not c.q and not r.q:
+                self.need('[OfNat β 0]')
+                return V('cmat', f"(NpR.toeplitz {c.text} {r.text})", c.shape + r.shape)
+            self.fail(e, 'toeplitz')
+        if name == 'np.conj' and len(a) == 1 and not kw:
+            self.need('[CxLike α β]')
+            return self.elementwise(e, lambda x: ('cx', f"(CxLike.conj {x.text})") if x.kind == 'cx' else self.fail(e, 'np.conj'), self.tr(a[0]))
+        if name == 'np.real' and len(a) == 1 and not kw:
+            self.need('[CxLike α β]')
+            return self.elementwise(e, lambda x: ('real', f"(CxLike.re {x.text})") if x.kind == 'cx' else self.fail(e, 'np.real'), self.tr(a[0]))
+        if name == 'np.sum' and len(a) == 1 and set(kw) == {'axis'} and isinstance(kw['axis'], ast.Constant) and kw['axis'].value == 1:
+            m = self.tr(a[0])
+            if m.kind == 'cmat' and not m.q:
+                self.need('[Add β]', '[OfNat β 0]')
+                return V('carr', f"({m.text}.map Cplx.sumL)", m.shape[:1])
+            return None
+        if name == 'np.zeros' and len(a) == 1 and set(kw) == {'dtype'} and isinstance(kw['dtype'], ast.Name) and kw['dtype'].id == 'complex':
+            k = self.tr(a[0])
+            if k.kind == 'nat' and not k.q:
+                self.need('[OfNat β 0]')
+                return V('carr', f"(NpE.zeros {k.text} : List β)", (k.text,))
+            self.fail(e, 'np.zeros')
+        if name == 'int' and len(a) == 1 and not kw:
+            # int(np.ceil(2 ** (np.log(n) / np.log(2)))): a float computation, the parameter `ceilExp2Log`
+            c = a[0]
+            if isinstance(c, ast.Call) and np_name(c.func) == 'np.ceil' and len(c.args) == 1 and isinstance(c.args[0], ast.BinOp) and \
+                    isinstance(c.args[0].op, ast.Pow) and isinstance(c.args[0].left, ast.Constant) and c.args[0].left.value == 2:
+                ex = c.args[0].right
+                if isinstance(ex, ast.BinOp) and isinstance(ex.op, ast.Div) and all(isinstance(z, ast.Call) and np_name(z.func) == 'np.log' and
+                                                                                    len(z.args) == 1 for z in (ex.left, ex.right)) and \
+                        isinstance(ex.right.args[0], ast.Constant) and ex.right.args[0].value == 2:
+                    n = self.tr(ex.left.args[0])
+                    if n.kind == 'nat' and not n.q:
+                        return V('nat', f"(ceilExp2Log {n.text})")
+                self.fail(e, 'int(np.ceil(2 ** (np.log(n) / np.log(2))))')
+            return None
+        if name in ('abs', 'np.abs') and len(a) == 1 and not kw:
+            m = self.tr(a[0])
+            if m.kind == 'cmat' and not m.q:
+                return V('mat', f"({m.text}.map (fun row => row.map cabs))", m.shape)
+            return None
+        if name == 'np.argmax' and len(a) == 1 and set(kw) == {'axis'} and isinstance(kw['axis'], ast.Constant) and kw['axis'].value == 0:
+            m = self.tr(a[0])
+            if m.kind == 'mat' and not m.q:
+                self.need('[LT α]', '[DecidableLT α]', '[OfNat α 0]')
+                return self.bind(f"NpR.argmaxAxis0E {m.text}", 'narr', m.shape[1:], node=e)
+            self.fail(e, 'np.argmax(axis=0)')
+        if name == 'np.take' and len(a) == 2 and not kw:
+            x, i = self.tr(a[0]), self.tr(a[1])
+            if x.kind == 'rarr' and i.kind == 'narr' and not x.q:
+                return self.bind(f"NpR.takeE {x.text} ({i.text}.map (fun (k : Nat) => (k : Int)))", 'rarr', i.shape, node=e)
+            self.fail(e, 'np.take')
+        return None
+
     def set_range_row(self, length, node):
         if self.row is None:
             self.row = dict(kind='range', len=length, var='i')
@@ -708,6 +849,10 @@ class Ex:
         if isinstance(t, ast.Call) and np_name(t.func) == 'hasattr' and len(t.args) == 2 and isinstance(t.args[0], ast.Name) and \
                 isinstance(t.args[1], ast.Constant) and t.args[1].value == '__len__' and t.args[0].id in self.env:
             return self.env[t.args[0].id].kind in ELEM
+        if isinstance(t, ast.Call) and np_name(t.func) == 'hasattr' and len(t.args) == 2 and isinstance(t.args[0], ast.Name) and \
+                isinstance(t.args[1], ast.Constant) and isinstance(t.args[1].value, str) and t.args[0].id in self.env and \
+                self.env[t.args[0].id].kind == 'obj' and t.args[1].value in self.sig.get('optional_attrs', ()):
+            return t.args[1].value in self.env[t.args[0].id].aux
         return None
 
     def run(self, body):
@@ -747,6 +892,13 @@ class Ex:
                 return
             if isinstance(tg, ast.Subscript) and isinstance(tg.value, ast.Name):
                 return self.store(st, tg)
+            if isinstance(tg, ast.Attribute) and isinstance(tg.value, ast.Name) and tg.value.id in self.env and \
+                    self.env[tg.value.id].kind == 'obj' and tg.attr in self.sig.get('optional_attrs', ()):
+                o = self.env[tg.value.id]
+                attrs = dict(o.aux)
+                attrs[tg.attr] = self.named(self.tr(st.value))
+                self.env[tg.value.id] = V('obj', None, aux=attrs)
+                return
             self.fail(st, 'assignment target')
         if isinstance(st, ast.AugAssign) and isinstance(st.target, ast.Name):
             nm = st.target.id
@@ -859,7 +1011,7 @@ class Ex:
 
     def store(self, st, tg):
         nm = tg.value.id
-        if nm not in self.env or self.env[nm].kind not in ('rarr',) or self.env[nm].q or nm in self.sig.get('params', {}):
+        if nm not in self.env or self.env[nm].kind not in ('rarr', 'carr') or self.env[nm].q or nm in self.sig.get('params', {}):
             self.fail(st, 'store into something that is not a local array')
         arr = self.env[nm]
         sl = tg.slice
@@ -880,9 +1032,10 @@ class Ex:
                 # a[lo:] = scalar
                 self.env[nm] = self.named(V('rarr', f"(NpR.fillFromPy {arr.text} {self.as_int(lo, st)} {rhs.text})", arr.shape))
                 return
-            if lo is not None and hi is not None and rhs.kind == 'rarr' and not rhs.q:
-                # a[lo:hi] = array (NumPy raises ValueError when the lengths do not match, unless len(rhs) = 1)
-                self.env[nm] = self.bind(f"NpR.setSlicePyE {arr.text} {self.as_int(lo, st)} {self.as_int(hi, st)} {rhs.text}", 'rarr', arr.shape, node=st)
+            if lo is not None and rhs.kind == arr.kind and not rhs.q:
+                # a[lo:hi] = array (NumPy raises ValueError when the lengths do not match, unless len(rhs) = 1); a[lo:] is a[lo:len(a)]
+                his = self.as_int(hi, st) if hi is not None else f"(({arr.text}.length : Nat) : Int)"
+                self.env[nm] = self.bind(f"NpR.setSlicePyE {arr.text} {self.as_int(lo, st)} {his} {rhs.text}", arr.kind, arr.shape, node=st)
                 return
             self.fail(st, 'slice store')
         if neg_const(sl) == 1:
@@ -1001,7 +1154,7 @@ def translate(fn, src, sig, lean_name, doc, body=None, pre=None):
     names, defaults = py_params(fn, fname, allow_kwargs=sig.get('allow_kwargs', False))
     if names != list(sig['params']):
         raise Untranslatable(fname, fn.lineno, f"parameters {names} (expected {list(sig['params'])})")
-    flag_params = [p for p in names if sig['params'][p][0] in ('optnat', 'optint', 'optrarr', 'bool', 'strflag', 'optstrflag')]
+    flag_params = [p for p in names if sig['params'][p][0] in ('optnat', 'optint', 'optrarr', 'optcmat', 'bool', 'strflag', 'optstrflag')]
     flag_params += list(sig.get('extra_flags', {}))
     specs = dict(sig['params'])
     specs.update(sig.get('extra_flags', {}))
@@ -1025,8 +1178,9 @@ def translate(fn, src, sig, lean_name, doc, body=None, pre=None):
             k = spec[0]
             if k == 'obj':
                 ex.env[p] = V('obj', None, aux=spec[1])
-            elif k in ('optnat', 'optint', 'optrarr'):
-                ex.env[p] = V(k[3:], spec[1], ((spec[1] + '.length',) if k == 'optrarr' else ())) if flags[p] else V('none', 'none')
+            elif k in ('optnat', 'optint', 'optrarr', 'optcmat'):
+                shp = (spec[1] + '.length',) if k == 'optrarr' else (spec[1] + '.length', spec[1] + '.row') if k == 'optcmat' else ()
+                ex.env[p] = V(k[3:], spec[1], shp) if flags[p] else V('none', 'none')
             elif k in ('strflag', 'optstrflag'):
                 ex.env[p] = V('none', 'none') if flags[p] == '\0none' else V('strflag', None, aux=flags[p] if flags[p] is not None else '\0other')
             elif k == 'bool':
@@ -1090,14 +1244,17 @@ def translate(fn, src, sig, lean_name, doc, body=None, pre=None):
             binders += list(spec[2])
         elif spec[0] in ('strflag', 'optstrflag'):
             binders.append(f"({spec[1]} : {spec[2]})")
-        elif spec[0] in ('optnat', 'optint', 'optrarr'):
+        elif spec[0] in ('optnat', 'optint', 'optrarr', 'optcmat'):
             binders.append(f"({spec[1]} : Option {LEAN_TYPE[spec[0][3:]] if ' ' not in LEAN_TYPE[spec[0][3:]] else '(' + LEAN_TYPE[spec[0][3:]] + ')'})")
         elif p == sig.get('rowparam') or spec[0] == 'skip':
             pass
         else:
             binders.append(f"({spec[1]} : {LEAN_TYPE[spec[0]]})")
     for p, spec in sig.get('extra_flags', {}).items():
-        binders.append(f"({spec[1]} : {spec[2] if spec[0] in ('strflag', 'optstrflag') else 'Bool'})")
+        if spec[0].startswith('opt') and spec[0] != 'optstrflag':
+            binders.append(f"({spec[1]} : Option ({LEAN_TYPE[spec[0][3:]]}))")
+        else:
+            binders.append(f"({spec[1]} : {spec[2] if spec[0] in ('strflag', 'optstrflag') else 'Bool'})")
     unknown = sorted(c for c in classes if c not in CLASS_ORDER and not c.startswith('[OfNat α'))
     if unknown:
         raise Untranslatable(fname, fn.lineno, f"internal: class {unknown}")
@@ -1164,7 +1321,7 @@ def translate(fn, src, sig, lean_name, doc, body=None, pre=None):
         row = next((a[4].row for a in arms if a[4].row is not None), None)
         rv = row['var'] if row else 'i'
         defs.append("\n".join(lines + [l.replace(ROW, rv) for l in body_lines(True, None)]))
-    return dict(text=defs, defaults=defaults, str_domains=str_domains, binders=binders, tc=tc, rty=rty, arms=arms)
+    return dict(text=defs, defaults=defaults, str_domains=str_domains, binders=binders, tc=tc, rty=rty, arms=arms, classes=cls)
 
 
 def inductive(name, lits, doc, with_none=False):
@@ -1457,4 +1614,538 @@ def gen_mutators2(repo, ns):
         "-- Signal.butter_pass) and eqsig/fns/generic.py (remove_poly). Do not edit."], ["import EqsigVerif.Prelude.NpR"], defs)}
 
 
-TARGETS = [gen_generic_fns2, gen_mutators2]
+# ----------------------------------------------------------------------------------------------
+# target 3: Gen/LoaderFns.lean — eqsig/loader.py (text layout written / read, dt recovery, scale factor, label, class constructed)
+# ----------------------------------------------------------------------------------------------
+
+def lean_str(t):
+    out = []
+    for ch in t:
+        if ch == '\n':
+            out.append('\\n')
+        elif ch == '\t':
+            out.append('\\t')
+        elif ch in '"\\':
+            out.append('\\' + ch)
+        elif 32 <= ord(ch) < 127:
+            out.append(ch)
+        elif ord(ch) < 256:
+            out.append('\\x%02x' % ord(ch))
+        elif ord(ch) < 65536:
+            out.append('\\u%04x' % ord(ch))
+        else:
+            raise Untranslatable('?', 0, f"character U+{ord(ch):x} in a string literal")
+    return '"' + ''.join(out) + '"'
+
+
+class LV:
+    """kind ∈ text | lines | rat | nat | vals | data | file | obj | pair | flag | strflag | none | strlit"""
+    __slots__ = ('kind', 'text', 'aux')
+
+    def __init__(self, kind, text, aux=None):
+        self.kind, self.text, self.aux = kind, text, aux
+
+
+OBJ_T = '(String × List Rat × Rat × Option (List Char))'
+
+
+class LoaderEx:
+    """executor for the string / file code of loader.py: `open(ffp)` is the decoded file content `text` (universal newlines applied by
+    `.read()`), `np.genfromtxt` / `.astype(float)` / `float` / `load_values_and_dt` are parameters, `x[k]` raises IndexError (`NpE.getE`)"""
+
+    def __init__(self, fname, src, gnames=('G', "G'")):
+        self.fname, self.src = fname, src
+        self.env, self.lines, self.cnt, self.indent = {}, [], 0, 0
+        self.gen_opts, self.gnames = [], list(gnames)
+        self.returned = None
+
+    def fail(self, node, what):
+        seg = ast.get_source_segment(self.src, node) if hasattr(node, 'lineno') else ''
+        raise Untranslatable(self.fname, getattr(node, 'lineno', 0), f"{what}: {seg}" if seg else what)
+
+    def emit(self, line):
+        self.lines.append('  ' * self.indent + line)
+
+    def bind(self, text, kind):
+        self.cnt += 1
+        self.emit(f"let e{self.cnt} ← {text}")
+        return LV(kind, f"e{self.cnt}")
+
+    def tr(self, e):
+        if isinstance(e, ast.Name):
+            if e.id in self.env:
+                return self.env[e.id]
+            self.fail(e, 'unknown name')
+        if isinstance(e, ast.Constant):
+            if isinstance(e.value, str):
+                return LV('text', f"{lean_str(e.value)}.toList")
+            if e.value is None:
+                return LV('none', 'none')
+            self.fail(e, 'literal')
+        if isinstance(e, ast.Tuple):
+            items = [self.tr(x) for x in e.elts]
+            if all(x.kind in ('vals', 'rat', 'text') for x in items):
+                return LV('pair', "(" + ", ".join(strip_outer(x.text) for x in items) + ")", aux=items)
+            self.fail(e, 'tuple')
+        if isinstance(e, ast.BinOp) and isinstance(e.op, ast.Mult):
+            l, r = self.tr(e.left), self.tr(e.right)
+            if l.kind == 'vals' and r.kind == 'rat':
+                return LV('vals', f"({l.text}.map (fun v => v * {r.text}))")
+            self.fail(e, 'product')
+        if isinstance(e, ast.Subscript):
+            b = self.tr(e.value)
+            if b.kind == 'lines' and isinstance(e.slice, ast.Constant) and isinstance(e.slice.value, int) and not isinstance(e.slice.value, bool) \
+                    and e.slice.value >= 0:
+                return self.bind(f"NpE.getE {b.text} {e.slice.value}", 'text')
+            self.fail(e, 'subscript')
+        if isinstance(e, ast.Call):
+            f = e.func
+            name = np_name(f)
+            if name == 'open' and len(e.args) == 1 and not e.keywords and isinstance(e.args[0], ast.Name) and \
+                    self.env.get(e.args[0].id, LV('', '')).kind == 'path':
+                return LV('file', None)
+            if name == 'float' and len(e.args) == 1 and not e.keywords:
+                v = self.tr(e.args[0])
+                if v.kind == 'text':
+                    return self.bind(f"float {v.text}", 'rat')
+                self.fail(e, 'float(...)')
+            if name == 'np.genfromtxt':
+                kw = {k.arg: k.value for k in e.keywords}
+                if not (len(e.args) == 1 and isinstance(e.args[0], ast.Name) and self.env.get(e.args[0].id, LV('', '')).kind == 'path' and
+                        set(kw) <= {'skip_header', 'delimiter', 'names', 'usecols'} and {'skip_header', 'delimiter', 'usecols'} <= set(kw) and
+                        all(isinstance(v, ast.Constant) for v in kw.values())):
+                    self.fail(e, 'np.genfromtxt arguments')
+                sh, dl, nm, uc = kw['skip_header'].value, kw['delimiter'].value, kw['names'].value if 'names' in kw else False, kw['usecols'].value
+                if not (type(sh) is int and sh >= 0 and isinstance(dl, str) and type(nm) is bool and type(uc) is int and uc >= 0):
+                    self.fail(e, 'np.genfromtxt options')
+                if len(self.gen_opts) >= len(self.gnames):
+                    self.fail(e, 'more np.genfromtxt calls than expected')
+                g = self.gnames[len(self.gen_opts)]
+                self.gen_opts.append(f"({sh}, {lean_str(dl)}, {'true' if nm else 'false'}, {uc})")
+                return self.bind(f"{g} text", 'data')
+            if name == 'np.atleast_1d' and len(e.args) == 1 and not e.keywords:
+                c = e.args[0]
+                if isinstance(c, ast.Call) and isinstance(c.func, ast.Attribute) and c.func.attr == 'astype' and len(c.args) == 1 and \
+                        isinstance(c.args[0], ast.Name) and c.args[0].id == 'float' and not c.keywords:
+                    d = self.tr(c.func.value)
+                    if d.kind == 'data':
+                        return self.bind(f"toValues {d.text}", 'vals')
+                self.fail(e, 'np.atleast_1d(<data>.astype(float))')
+            if name == 'load_values_and_dt' and len(e.args) == 1 and not e.keywords and isinstance(e.args[0], ast.Name) and \
+                    self.env.get(e.args[0].id, LV('', '')).kind == 'path':
+                r = self.bind("load text", 'pair')
+                r.aux = [LV('vals', f"{r.text}.1"), LV('rat', f"{r.text}.2")]
+                return r
+            if name in ('Signal', 'AccSignal') and len(e.args) == 2 and [k.arg for k in e.keywords] in ([], ['label']):
+                a, b = self.tr(e.args[0]), self.tr(e.args[1])
+                lab = self.tr(e.keywords[0].value) if e.keywords else None
+                if a.kind == 'vals' and b.kind == 'rat' and (lab is None or lab.kind == 'text'):
+                    return LV('obj', f"({lean_str(name)}, {strip_outer(a.text)}, {b.text}, {'none' if lab is None else 'some ' + lab.text})")
+                self.fail(e, 'constructor arguments')
+            if isinstance(f, ast.Attribute) and not e.args and not e.keywords:
+                b = self.tr(f.value)
+                if f.attr == 'read' and b.kind == 'file':
+                    return LV('text', '(universalNewlines text)')
+                if f.attr == 'splitlines' and b.kind == 'text':
+                    return LV('lines', f"(pySplitlines {b.text})")
+                if f.attr == 'split' and b.kind == 'text':
+                    return LV('lines', f"(pySplit {b.text})")
+            self.fail(e, 'call')
+        self.fail(e, f"expression {type(e).__name__}")
+
+    def static_test(self, t):
+        if isinstance(t, ast.Name) and t.id in self.env and self.env[t.id].kind == 'flag':
+            return self.env[t.id].aux
+        if isinstance(t, ast.Compare) and len(t.ops) == 1 and isinstance(t.ops[0], ast.Eq) and isinstance(t.left, ast.Name) and \
+                t.left.id in self.env and self.env[t.left.id].kind == 'strflag' and isinstance(t.comparators[0], ast.Constant) and \
+                isinstance(t.comparators[0].value, str):
+            return self.env[t.left.id].aux == t.comparators[0].value
+        return None
+
+    def run(self, body):
+        for st in body:
+            if self.returned is not None:
+                break
+            self.stmt(st)
+
+    def stmt(self, st):
+        if isinstance(st, ast.Expr) and isinstance(st.value, ast.Constant):
+            return
+        if isinstance(st, ast.Expr) and isinstance(st.value, ast.Call) and isinstance(st.value.func, ast.Attribute) and st.value.func.attr == 'close' \
+                and isinstance(st.value.func.value, ast.Name) and self.env.get(st.value.func.value.id, LV('', '')).kind == 'file' \
+                and not st.value.args and not st.value.keywords:
+            return
+        if isinstance(st, ast.Assign) and len(st.targets) == 1:
+            tg = st.targets[0]
+            v = self.tr(st.value)
+            if isinstance(tg, ast.Name):
+                self.env[tg.id] = v
+                return
+            if isinstance(tg, ast.Tuple) and all(isinstance(x, ast.Name) for x in tg.elts) and v.kind == 'pair' and len(tg.elts) == len(v.aux):
+                for x, y in zip(tg.elts, v.aux):
+                    self.env[x.id] = y
+                return
+            self.fail(st, 'assignment')
+        if isinstance(st, ast.With) and len(st.items) == 1 and isinstance(st.items[0].optional_vars, ast.Name):
+            v = self.tr(st.items[0].context_expr)
+            if v.kind != 'file':
+                self.fail(st, 'with')
+            self.env[st.items[0].optional_vars.id] = v
+            self.run(st.body)
+            return
+        if isinstance(st, ast.If):
+            t = self.static_test(st.test)
+            if t is None:
+                self.fail(st, 'if test')
+            self.run(st.body if t else st.orelse)
+            return
+        if isinstance(st, ast.Return):
+            self.returned = self.tr(st.value) if st.value is not None else LV('none', 'none')
+            return
+        if isinstance(st, ast.Try) and len(st.handlers) == 1 and not st.orelse and not st.finalbody and \
+                isinstance(st.handlers[0].type, ast.Name) and st.handlers[0].name is None:
+            kind = st.handlers[0].type.id
+            if kind not in ('TypeError', 'ValueError', 'IndexError'):
+                self.fail(st, 'exception class')
+            blocks = []
+            for body in (st.body, st.handlers[0].body):
+                sub = LoaderEx(self.fname, self.src, self.gnames)
+                sub.env, sub.cnt, sub.gen_opts, sub.indent = dict(self.env), self.cnt, self.gen_opts, self.indent + 2
+                sub.run(body)
+                if sub.returned is not None:
+                    self.fail(st, 'return inside try')
+                self.cnt = sub.cnt
+                new = [k for k in sub.env if k not in self.env or sub.env[k] is not self.env[k]]
+                blocks.append((sub, new))
+            # names bound on BOTH paths, in the order of their first assignment in the try body (a name bound on one path only is not
+            # visible afterwards: a later use is an unknown name)
+            n0 = [k for k in blocks[0][1] if k in blocks[1][1]]
+            if [blocks[0][0].env[k].kind for k in n0] != [blocks[1][0].env[k].kind for k in n0]:
+                self.fail(st, 'try body and handler bind a name with different kinds')
+            live = [k for k in n0 if blocks[0][0].env[k].kind in ('rat', 'vals', 'data', 'text')]
+            if not live:
+                self.fail(st, 'try binds nothing')
+            self.cnt += 1
+            r = f"e{self.cnt}"
+            self.emit(f"let {r} ← NpR.tryCatchE (do")
+            for ln in blocks[0][0].lines:
+                self.lines.append(ln)
+            self.emit("    pure (" + ", ".join(blocks[0][0].env[k].text for k in live) + f")) .{kind} (do")
+            for ln in blocks[1][0].lines:
+                self.lines.append(ln)
+            self.emit("    pure (" + ", ".join(blocks[1][0].env[k].text for k in live) + "))")
+            for i, k in enumerate(live):
+                proj = r if len(live) == 1 else (f"{r}" + ".2" * i + (".1" if i < len(live) - 1 else ""))
+                self.env[k] = LV(blocks[0][0].env[k].kind, proj)
+            return
+        self.fail(st, f"statement {type(st).__name__}")
+
+
+def fmt_pieces(ex, node, consts_name):
+    """`"<fmt>" % args` with the two shapes `tools/py2lean.py` (Consts) recognises: `%i %.<d>f` and `%.<d>f`; the digit count is the constant of
+    Gen/Consts.lean (not duplicated here)"""
+    if not (isinstance(node, ast.BinOp) and isinstance(node.op, ast.Mod) and isinstance(node.left, ast.Constant) and isinstance(node.left.value, str)):
+        ex.fail(node, 'format expression')
+    fmt = node.left.value
+    args = node.right.elts if isinstance(node.right, ast.Tuple) else [node.right]
+    toks = re.findall(r'%i|%\.\d+f|[^%]+', fmt)
+    if ''.join(toks) != fmt or [t for t in toks if t.startswith('%.')] != [t for t in toks if t.startswith('%.')][:1] or \
+            len([t for t in toks if t.startswith('%')]) != len(args):
+        ex.fail(node, 'format string')
+    out, ai = [], 0
+    for t in toks:
+        if t == '%i':
+            a = args[ai]
+            ai += 1
+            if not (isinstance(a, ast.Call) and np_name(a.func) == 'len' and len(a.args) == 1 and isinstance(a.args[0], ast.Name) and
+                    ex.env.get(a.args[0].id, LV('', '')).kind == 'vals'):
+                ex.fail(a, '%i argument')
+            out.append(f"Fmt.fmtIntL (({ex.env[a.args[0].id].text}.length : Nat) : Int)")
+        elif t.startswith('%.'):
+            v = ex.tr(args[ai]) if not isinstance(args[ai], ast.Subscript) else ex.elem(args[ai])
+            ai += 1
+            if v.kind != 'rat':
+                ex.fail(node, '%f argument')
+            out.append(f"Fmt.fmtFixedL {v.text} Consts.{consts_name}")
+        else:
+            out.append(f"{lean_str(t)}.toList")
+    return " ++ ".join(out)
+
+
+def gen_loader_fns(repo, ns):
+    src = open(os.path.join(repo, 'eqsig', 'loader.py')).read()
+    mod = ast.parse(src)
+    defs = []
+    # ---- save_values_and_dt(ffp, values, dt, label)
+    q = 'save_values_and_dt'
+    fn = find_function(mod, q)
+    names, dflt = py_params(fn, q)
+    body = body_of(fn)
+    if names != ['ffp', 'values', 'dt', 'label'] or dflt or len(body) != 5:
+        raise Untranslatable(q, fn.lineno, 'signature / number of statements')
+    ex = LoaderEx(q, src)
+    ex.env = {'ffp': LV('path', None), 'values': LV('vals', 'values'), 'dt': LV('rat', 'dt'), 'label': LV('text', 'label')}
+    st = body[0]
+    if not (isinstance(st, ast.Assign) and isinstance(st.targets[0], ast.Name) and isinstance(st.value, ast.List) and len(st.value.elts) == 2):
+        raise Untranslatable(q, st.lineno, '`<lines> = [label, "<header format>" % (…)]`')
+    para = st.targets[0].id
+    first = ex.tr(st.value.elts[0])
+    if first.kind != 'text':
+        ex.fail(st, 'first line')
+    hdr = fmt_pieces(ex, st.value.elts[1], 'loaderDtDecimals')
+    if not re.fullmatch(r'%i %\.\d+f', st.value.elts[1].left.value):
+        ex.fail(st, 'header format')
+    lp = body[1]
+    ok = isinstance(lp, ast.For) and isinstance(lp.target, ast.Name) and not lp.orelse and isinstance(lp.iter, ast.Call) and np_name(lp.iter.func) == 'range' \
+        and len(lp.iter.args) == 1 and isinstance(lp.iter.args[0], ast.Call) and np_name(lp.iter.args[0].func) == 'len' and \
+        len(lp.iter.args[0].args) == 1 and isinstance(lp.iter.args[0].args[0], ast.Name) and lp.iter.args[0].args[0].id == 'values' and len(lp.body) == 1
+    if ok:
+        c = lp.body[0]
+        ok = isinstance(c, ast.Expr) and isinstance(c.value, ast.Call) and isinstance(c.value.func, ast.Attribute) and c.value.func.attr == 'append' and \
+            isinstance(c.value.func.value, ast.Name) and c.value.func.value.id == para and len(c.value.args) == 1 and not c.value.keywords
+    if not ok:
+        raise Untranslatable(q, lp.lineno, '`for i in range(len(values)): <lines>.append("<format>" % values[i])`')
+    ivar = lp.target.id
+
+    def elem(node):
+        if isinstance(node.value, ast.Name) and node.value.id == 'values' and isinstance(node.slice, ast.Name) and node.slice.id == ivar:
+            return LV('rat', 'v')
+        ex.fail(node, 'subscript in the loop body')
+    ex.elem = elem
+    val = fmt_pieces(ex, c.value.args[0], 'loaderValueDecimals')
+    if not re.fullmatch(r'%\.\d+f', c.value.args[0].left.value):
+        ex.fail(c, 'value format')
+    o, w, cl = body[2], body[3], body[4]
+    ok = isinstance(o, ast.Assign) and isinstance(o.targets[0], ast.Name) and isinstance(o.value, ast.Call) and np_name(o.value.func) == 'open' and \
+        len(o.value.args) == 2 and isinstance(o.value.args[0], ast.Name) and o.value.args[0].id == 'ffp' and isinstance(o.value.args[1], ast.Constant) \
+        and o.value.args[1].value == 'w' and not o.value.keywords
+    fvar = o.targets[0].id if ok else None
+    ok = ok and isinstance(w, ast.Expr) and isinstance(w.value, ast.Call) and isinstance(w.value.func, ast.Attribute) and w.value.func.attr == 'write' and \
+        isinstance(w.value.func.value, ast.Name) and w.value.func.value.id == fvar and len(w.value.args) == 1
+    if ok:
+        j = w.value.args[0]
+        ok = isinstance(j, ast.Call) and isinstance(j.func, ast.Attribute) and j.func.attr == 'join' and isinstance(j.func.value, ast.Constant) and \
+            isinstance(j.func.value.value, str) and len(j.args) == 1 and isinstance(j.args[0], ast.Name) and j.args[0].id == para
+    ok = ok and isinstance(cl, ast.Expr) and isinstance(cl.value, ast.Call) and isinstance(cl.value.func, ast.Attribute) and cl.value.func.attr == 'close' \
+        and isinstance(cl.value.func.value, ast.Name) and cl.value.func.value.id == fvar
+    if not ok:
+        raise Untranslatable(q, o.lineno, '`f = open(ffp, "w")` / `f.write("<sep>".join(<lines>))` / `f.close()`')
+    sep = j.func.value.value
+    defs.append("/-- the lines `save_values_and_dt(ffp, values, dt, label)` collects: the label, the header `\"%i %.<d>f\" % (len(values), dt)`, one "
+                "`\"%.<d>f\" % values[i]` per value (the digit counts are the constants of `Consts.lean`) -/\n"
+                "def saveLines (values : List Rat) (dt : Rat) (label : List Char) : List (List Char) :=\n"
+                f"  [{first.text}, {hdr}] ++ values.map (fun v => {val})")
+    defs.append("/-- the text `save_values_and_dt` writes (file opened with mode `\"w\"`): the lines joined by the separator literal of the source -/\n"
+                "def saveText (values : List Rat) (dt : Rat) (label : List Char) : List Char :=\n"
+                f"  NpR.joinL {lean_str(sep)}.toList (saveLines values dt label)")
+    # ---- save_signal(ffp, signal)
+    q = 'save_signal'
+    fn = find_function(mod, q)
+    names, dflt = py_params(fn, q)
+    body = body_of(fn)
+    ok = names == ['ffp', 'signal'] and not dflt and len(body) == 1 and isinstance(body[0], ast.Expr) and isinstance(body[0].value, ast.Call)
+    if ok:
+        c = body[0].value
+        ok = np_name(c.func) == 'save_values_and_dt' and not c.keywords and len(c.args) == 4 and isinstance(c.args[0], ast.Name) and c.args[0].id == 'ffp'
+        attrs = [a.attr if isinstance(a, ast.Attribute) and isinstance(a.value, ast.Name) and a.value.id == 'signal' else None for a in c.args[1:]] if ok else []
+        ok = ok and all(a in ('values', 'dt', 'label') for a in attrs)
+    if not ok:
+        raise Untranslatable(q, fn.lineno, 'body is not `save_values_and_dt(ffp, signal.<a>, signal.<b>, signal.<c>)`')
+    kinds = {'values': 'vals', 'dt': 'rat', 'label': 'text'}
+    if [kinds[a] for a in attrs] != ['vals', 'rat', 'text']:
+        raise Untranslatable(q, fn.lineno, f"argument kinds of save_values_and_dt: {attrs}")
+    defs.append("/-- `save_signal(ffp, signal)` on `(signal.values, signal.dt, signal.label)`: the text written -/\n"
+                "def saveSignal (values : List Rat) (dt : Rat) (label : List Char) : List Char :=\n"
+                f"  saveText {' '.join(attrs)}")
+    # ---- load_values_and_dt(ffp)
+    q = 'load_values_and_dt'
+    fn = find_function(mod, q)
+    names, dflt = py_params(fn, q)
+    if names != ['ffp'] or dflt:
+        raise Untranslatable(q, fn.lineno, 'signature')
+    ex = LoaderEx(q, src)
+    ex.env = {'ffp': LV('path', None)}
+    ex.run(body_of(fn))
+    r = ex.returned
+    if r is None or r.kind != 'pair' or [x.kind for x in r.aux] != ['vals', 'rat']:
+        raise Untranslatable(q, fn.lineno, 'return is not the pair (values, dt)')
+    if len(ex.gen_opts) != 2:
+        raise Untranslatable(q, fn.lineno, 'two np.genfromtxt calls expected (try body and handler)')
+    defs.append("/-- `(skip_header, delimiter, names, usecols)` of the `np.genfromtxt` call in the `try` body (`G`) and in the `except` handler (`G'`) -/\n"
+                f"def genfromtxtOptions : (Nat × String × Bool × Nat) × (Nat × String × Bool × Nat) := ({ex.gen_opts[0]}, {ex.gen_opts[1]})")
+    defs.append("/-- `load_values_and_dt(ffp)` on the decoded file content `text`: `G`/`G'` = `np.genfromtxt(ffp, …)` with `genfromtxtOptions.1`/`.2`, "
+                "`toValues` = `np.atleast_1d(·.astype(float))`, `float` = Python's `float(str)`; `open(ffp).read()` applies universal newlines -/\n"
+                "def loadValuesAndDt {δ : Type} (G G' : List Char → Except ErrKind δ) (toValues : δ → Except ErrKind (List Rat))\n"
+                "    (float : List Char → Except ErrKind Rat) (text : List Char) :\n    Except ErrKind (List Rat × Rat) := do\n" +
+                "\n".join("  " + l for l in ex.lines + [f"pure {r.text}"]))
+
+    # ---- load_sig / load_asig / load_signal: flags enumerated
+    def loader_fn(q, lname, params, doc, option_result=False):
+        fn = find_function(mod, q)
+        names, dflt = py_params(fn, q)
+        if names != ['ffp'] + [p[0] for p in params]:
+            raise Untranslatable(q, fn.lineno, f"parameters {names}")
+        flagp = [p for p in params if p[1] in ('bool', 'strflag')]
+        doms = []
+        lits = {}
+        for p in flagp:
+            if p[1] == 'bool':
+                doms.append([True, False])
+            else:
+                lits[p[0]] = str_literals(fn, p[0], q)
+                doms.append(lits[p[0]] + [None])
+        arms = []
+        for combo in itertools.product(*doms):
+            ex = LoaderEx(q, src)
+            ex.env = {'ffp': LV('path', None)}
+            fl = dict(zip([p[0] for p in flagp], combo))
+            for p in params:
+                if p[1] == 'bool':
+                    ex.env[p[0]] = LV('flag', None, fl[p[0]])
+                elif p[1] == 'strflag':
+                    ex.env[p[0]] = LV('strflag', None, fl[p[0]] if fl[p[0]] is not None else '\0')
+                else:
+                    ex.env[p[0]] = LV(p[1], p[0])
+            ex.run(body_of(fn))
+            r = ex.returned
+            if r is None:
+                if not option_result:
+                    raise Untranslatable(q, fn.lineno, 'a path does not return')
+                val = 'none'
+            elif r.kind == 'none' and option_result:
+                val = 'none'
+            elif r.kind == 'obj':
+                val = f"(some {r.text})" if option_result else r.text
+            else:
+                raise Untranslatable(q, fn.lineno, f"returns a value of kind {r.kind}")
+            pats = [('true' if fl[p[0]] else 'false') if p[1] == 'bool' else '.' + ctor(fl[p[0]] if fl[p[0]] is not None else 'other') for p in flagp]
+            arms.append((pats, ex.lines, val))
+        binders = ["(load : List Char → Except ErrKind (List Rat × Rat))", "(text : List Char)"]
+        for p in params:
+            binders.append(f"({p[0]} : {'Bool' if p[1] == 'bool' else p[2] if p[1] == 'strflag' else 'Rat'})")
+        rty = f"Option {OBJ_T}" if option_result else OBJ_T
+        out = [f"/-- {doc} -/", f"def {lname} {' '.join(binders)} :", f"    Except ErrKind ({rty}) :="]
+        if flagp:
+            out.append("  match " + ", ".join(p[0] for p in flagp) + " with")
+            for pats, lines, val in arms:
+                out.append("  | " + ", ".join(pats) + " => do")
+                out += ["    " + l for l in lines] + [f"    pure {val}"]
+        else:
+            out[-1] += " do"
+            out += ["  " + l for l in arms[0][1]] + [f"  pure {arms[0][2]}"]
+        return "\n".join(out), dflt, lits
+
+    def rat_default(q, node):
+        if isinstance(node, ast.Constant) and type(node.value) in (int, float):
+            t = ast.get_source_segment(src, node)
+            return float_text(t) if isinstance(node.value, float) else t
+        raise Untranslatable(q, getattr(node, 'lineno', 0), 'default value')
+    common = ('`load` = `load_values_and_dt`; the result is (class constructed, values, dt, `label=` keyword if passed — `none` = the constructor default)')
+    t, d, _ = loader_fn('load_sig', 'loadSig', [('m', 'rat')], '`load_sig(ffp, m)`; ' + common)
+    defs.append(t)
+    defs.append(f"/-- default of `m` in `load_sig` -/\ndef loadSigDefaultM : Rat := {rat_default('load_sig', d.get('m'))}")
+    t, d, _ = loader_fn('load_asig', 'loadAsig', [('load_label', 'bool'), ('m', 'rat')], '`load_asig(ffp, load_label, m)`; ' + common)
+    defs.append(t)
+    dl = d.get('load_label')
+    if not (isinstance(dl, ast.Constant) and isinstance(dl.value, bool)):
+        raise Untranslatable('load_asig', 0, 'default of load_label')
+    defs.append(f"/-- defaults of `(load_label, m)` in `load_asig` -/\ndef loadAsigDefaults : Bool × Rat := ({'true' if dl.value else 'false'}, {rat_default('load_asig', d.get('m'))})")
+    t, d, lits = loader_fn('load_signal', 'loadSignal', [('astype', 'strflag', 'LoadAs')], '`load_signal(ffp, astype)` (`None` is returned when no branch matches); ' + common,
+                           option_result=True)
+    defs.append(inductive('LoadAs', lits['astype'], 'the values of `astype` the code of `load_signal` distinguishes'))
+    defs.append(t)
+    da = d.get('astype')
+    if not (isinstance(da, ast.Constant) and isinstance(da.value, str)):
+        raise Untranslatable('load_signal', 0, 'default of astype')
+    defs.append(f"/-- default of `astype` in `load_signal` -/\ndef loadSignalDefaultAstype : LoadAs := LoadAs.ofString {lean_str(da.value)}")
+    text = file_text(ns, 'LoaderFns', ["-- GENERATED by tools/py2lean_x_rest.py from eqsig/loader.py. Do not edit."],
+                     ["import EqsigVerif.Prelude.NpR", "import EqsigVerif.Prelude.Fmt", "import EqsigVerif.Model.Loader", f"import EqsigVerif.{ns}.Consts"], defs,
+                     opens=f" EqsigVerif.{ns}\nopen EqsigVerif.Model.Loader (universalNewlines pySplitlines pySplit)")
+    return {"LoaderFns.lean": text}
+
+
+# ----------------------------------------------------------------------------------------------
+# target 4: Gen/StockwellFns.lean — eqsig/stockwell.py
+# ----------------------------------------------------------------------------------------------
+
+def gen_stockwell_fns(repo, ns):
+    src = open(os.path.join(repo, 'eqsig', 'stockwell.py')).read()
+    mod = ast.parse(src)
+    defs = []
+    TW, EXP = '(tw : Nat → Nat → β)', '(exp : α → α)'
+    callee_classes = {}
+
+    def gaussian_hook(ex, e):
+        if len(e.args) != 1 or e.keywords:
+            ex.fail(e, 'generate_gaussian arguments')
+        n = ex.tr(e.args[0])
+        if n.kind != 'nat' or n.q:
+            ex.fail(e, 'generate_gaussian argument')
+        ex.need(*callee_classes['generateGaussian'])          # the caller needs the instances of the generated callee
+        return V('mat', f"(generateGaussian exp pi {n.text})", (n.text, f"(2 * {n.text})"))
+
+    def transform_hook(ex, e):
+        if len(e.args) != 1 or e.keywords:
+            ex.fail(e, 'transform arguments')
+        x = ex.tr(e.args[0])
+        if x.kind != 'carr' or x.q:
+            ex.fail(e, 'transform argument')
+        ex.need(*callee_classes['transform'])
+        return ex.bind(f"transform tw exp pi {x.text}", 'cmat', ('?', '?'), node=e)
+    # ---- generate_gaussian(n_d2)
+    fn = find_function(mod, 'generate_gaussian')
+    sig = dict(qualname='generate_gaussian', pure=True, complex=True, params={'n_d2': ('nat', 'n_d2')}, extra_binders=[EXP])
+    r = translate(fn, src, sig, 'generateGaussian', '`eqsig.stockwell.generate_gaussian(n_d2)` (row `k-1` ↔ harmonic `k`, after the `.transpose()`); '
+                  '`np.exp` and `np.pi` are the parameters `exp`, `pi`; `x ** 2` is `x * x`', body=body_of(fn))
+    defs += r['text']
+    callee_classes['generateGaussian'] = r['classes']
+    # ---- transform(acc, interp=False) / transform_w_scipy_fft(acc, interp=False)
+    for py, ln, what in (('transform', 'transform', '`np.fft.fft/ifft`'), ('transform_w_scipy_fft', 'transformWScipyFft', '`scipy.fftpack.fft/ifft`')):
+        fn = find_function(mod, py)
+        sig = dict(qualname=py, complex=True, params={'acc': ('carr', 'acc'), 'interp': ('skip', 'interp')}, extra_binders=[TW, EXP],
+                   calls={'generate_gaussian': gaussian_hook})
+        r = translate(fn, src, sig, ln, f"`eqsig.stockwell.{py}(acc)`: {what} are the defining sums with the twiddle table `tw` (assumption `FftIsDft`); "
+                      "`toeplitz` is `scipy.linalg.toeplitz`", body=body_of(fn))
+        defs += r['text']
+        callee_classes[ln] = r['classes']
+    # ---- itransform(stock)
+    fn = find_function(mod, 'itransform')
+    sig = dict(qualname='itransform', complex=True, params={'stock': ('cmat', 'stock')}, extra_binders=[TW, '(ceilExp2Log : Nat → Nat)'])
+    r = translate(fn, src, sig, 'itransform', '`eqsig.stockwell.itransform(stock)`; `ceilExp2Log n` stands for the float computation '
+                  '`int(np.ceil(2 ** (np.log(n) / np.log(2))))`', body=body_of(fn))
+    defs += r['text']
+    # ---- get_max_tifq_vals_freq(tifq_values, dt)
+    fn = find_function(mod, 'get_max_tifq_vals_freq')
+    sig = dict(qualname='get_max_tifq_vals_freq', complex=True, params={'tifq_values': ('cmat', 'tifq'), 'dt': ('real', 'dt')}, extra_binders=['(cabs : β → α)'])
+    r = translate(fn, src, sig, 'getMaxTifqValsFreq', '`eqsig.stockwell.get_max_tifq_vals_freq(tifq_values, dt)`; `cabs` = `abs` on the entries', body=body_of(fn))
+    defs += r['text']
+    # ---- get_max_stockwell_freq(asig): the transform is computed when `asig` has no attribute `swtf`
+
+    def asig_pre(ex, flags):
+        sw = ex.env.pop('__swtf__')
+        attrs = {'values': V('carr', 'values', ('values.length',)), 'dt': V('real', 'dt')}
+        if sw.kind != 'none':
+            attrs['swtf'] = sw
+        ex.env['asig'] = V('obj', None, aux=attrs)
+    fn = find_function(mod, 'get_max_stockwell_freq')
+    sig = dict(qualname='get_max_stockwell_freq', complex=True, params={'asig': ('skip', 'asig')}, optional_attrs=('swtf',),
+               extra_flags={'__swtf__': ('optcmat', 'swtf')}, extra_binders=['(cabs : β → α)', TW, EXP, '(values : List β)', '(dt : α)'],
+               calls={'transform': transform_hook})
+    r = translate(fn, src, sig, 'getMaxStockwellFreq', '`eqsig.stockwell.get_max_stockwell_freq(asig)` on `(asig.values, asig.dt)`; `swtf = none`: the object has '
+                  'no attribute `swtf` yet (then `transform(asig.values)` is computed and stored)', body=body_of(fn), pre=asig_pre)
+    defs += r['text']
+    # ---- get_stockwell_freqs / get_stockwell_times
+
+    def asig_pre2(ex, flags):
+        ex.env['asig'] = V('obj', None, aux={'values': V('carr', 'values', ('values.length',)), 'dt': V('real', 'dt'),
+                                             'swtf': V('cmat', 'swtf', ('swtf.length', 'swtf.row'))})
+    for py, ln in (('get_stockwell_freqs', 'getStockwellFreqs'), ('get_stockwell_times', 'getStockwellTimes')):
+        fn = find_function(mod, py)
+        sig = dict(qualname=py, complex=True, params={'asig': ('skip', 'asig')}, extra_binders=['(swtf : List (List β))', '(values : List β)', '(dt : α)'])
+        r = translate(fn, src, sig, ln, f"`eqsig.stockwell.{py}(asig)` on `(asig.swtf, asig.values, asig.dt)`", body=body_of(fn), pre=asig_pre2)
+        defs += r['text']
+    return {"StockwellFns.lean": file_text(ns, 'StockwellFns', ["-- GENERATED by tools/py2lean_x_rest.py from eqsig/stockwell.py. Do not edit."],
+                                           ["import EqsigVerif.Prelude.NpR"], defs)}
+
+
+TARGETS = [gen_generic_fns2, gen_mutators2, gen_loader_fns, gen_stockwell_fns]
